@@ -11,6 +11,7 @@ from __future__ import annotations
 import datetime as dt
 import itertools as it
 import json
+import re
 
 from mc.core import dirstate as D
 from mc.core import framework as F
@@ -38,6 +39,7 @@ REDUCED = [
     ["-  two spaces"],
     ["o P3  2024-02-05 two spaces dated"],
     ["- 240229#Z7 zid of a leap day"],
+    ["- 240203#00 carries the first zid of a date other items are dated with"],
     ["x 2024-02-29 done on a leap day"],
 ]
 LAYOUTS = ["same_block", "two_blocks", "dated_h2", "subdir", "two_pages", "same_name_pages", "deep_sections", "h2_first"]
@@ -69,6 +71,10 @@ def variant_items():
                     if lead == "P1" and kind != "-" and prio is None:
                         continue  # that IS the priority of a todo, covered above
                     out.append([pre + " " + (ident + " " if ident else "") + lead + " lookalike first word"])
+    # nothing after the prefix on the first line: the whole body is on continuation lines
+    for pre in ("-", "o", "o P1", "x"):
+        out.append([pre + " ", "  body starts on the second line"])
+        out.append([pre + " 2024-02-03", "  * only a date on the first line"])
     return out
 
 
@@ -81,7 +87,7 @@ def build_files(case) -> dict[str, str]:
     _, layout, i, j = case
     a, b = REDUCED[i], REDUCED[j]
     if i == j:  # the same written ZID twice would be an input error, not a finding
-        b = [l.replace("#Z", "#Y") for l in b]
+        b = [l.replace("#Z", "#Y").replace("240203#00", "240205#00") for l in b]
     A, B = "\n".join(a) + "\n", "\n".join(b) + "\n"
     if layout == "same_block":
         return {"a.zo": "# t\n\n" + A + B}
@@ -95,7 +101,7 @@ def build_files(case) -> dict[str, str]:
         H1R_, H3R_, H4R_ = "#" * 32, "+" * 16, "-" * 8
         return {"a.zo": "# t #tt\n\n- 240109#Z9 top block note\n\n" + f"{H1R_} One +p1\n\n" + A + "\n"
                 + f"{H2R} Two k::v\n\n- 240110#ZA under two\n\n{H3R_} Three 2024-03-03\n\n" + B + "\n"
-                + f"{H4R_} Four @c4\n\n" + A.replace("#Z", "#X").replace("plain one", "plain again") + "- 240111#ZB last under four\n\n"
+                + f"{H4R_} Four @c4\n\n" + A.replace("#Z", "#X").replace("240203#00", "240204#00").replace("plain one", "plain again") + "- 240111#ZB last under four\n\n"
                 + f"{H2R} Two again\n\n- 240112#ZC in the second h2\n"}
     if layout == "h2_first":
         H3R_ = "+" * 16
@@ -121,7 +127,7 @@ def _preids(today_short: str, k) -> dict:
             "240204": pts[(k + 5) % len(pts)], "240205": pts[(k + 7) % len(pts)]}
 
 
-def _judge_state(zdir, day, original: dict, prev: dict | None, step_no: int):
+def _judge_state(zdir, day, original: dict, prev: dict | None, step_no: int, had_next_ids: bool = True):
     """The four invariants in one state. Returns (problem kind, detail) or None."""
     H.freeze(day)
     files = Z.snapshot(zdir, with_meta=False)
@@ -133,11 +139,20 @@ def _judge_state(zdir, day, original: dict, prev: dict | None, step_no: int):
             return ("page-no-longer-compiles", {"page": page, "exc": pg["exc"]})
         for n in pg["notes"]:
             if not n["zid"]:
-                return ("note-without-zid-after-index", {"page": page, "line": n["line"], "body": n["body"]})
+                first = files[page].split("\n")[n["line"] - 1]
+                bare = re.fullmatch(r"[-ox~<>]( P[0-9])? *", first) is not None
+                return ("note-without-zid-after-index" + (":first-line-holds-only-the-prefix" if bare else ""),
+                        {"page": page, "line": n["line"], "first_line": first, "body": n["body"]})
     # uniqueness and form
     zids = [n["zid"] for pg in compiled.values() for n in pg["notes"]]
     if len(set(zids)) != len(zids):
-        return ("duplicate-zid-in-files", {"zids": sorted(zids)})
+        dup = sorted({z for z in zids if zids.count(z) > 1})
+        # narrow class: the directory had no next_ids.json, and every duplicated ZID was
+        # already written in the original files with the suffix a fresh allocator starts at
+        written = {m for t in original.values() for m in re.findall(r"\b\d{6}#[0-9A-Za-z]{2,3}\b", t)}
+        fresh = all(z in written and z.endswith("#00") for z in dup) and not had_next_ids
+        return ("duplicate-zid-in-files" + (":fresh-allocator-reissues-a-written-zid" if fresh else ""),
+                {"duplicated": dup, "zids": sorted(zids)})
     # (ii) index == recompiled files
     hard = [p for p in index["problems"] if not p.startswith("orphan ")]
     if hard:
@@ -226,7 +241,7 @@ def _run_case(ctx, case) -> F.Outcome:
                 out.detail = {"files": files, "history": hist, "step": k, "status": r.status, "exit": r.value,
                               "stderr": r.err[-1500:]}
                 break
-            problem = _judge_state(zd, day, files, prev, k)
+            problem = _judge_state(zd, day, files, prev, k, had_next_ids=bool(preids))
             states.append(D.state_digest(zd, day))
             if problem:
                 out.ok = False
@@ -279,6 +294,13 @@ def _cases(ctx):
                 for h in ("cr", "ccr"):
                     for adv in (False, True):
                         cases.append([["pair", layout, i, j], h, adv, (i * 12 + j + 1) if (i + j) % 2 == 0 else 0])
+    # a directory WITHOUT next_ids.json (index rebuilt from the files alone) in which one note
+    # already carries the ZID a fresh allocator starts with for the date of a ZID-less note
+    wi = next(k for k, x in enumerate(REDUCED) if "240203#00" in x[0])
+    for di in [k for k, x in enumerate(REDUCED) if "2024-02-03" in x[0]]:
+        for layout in ("same_block", "two_pages", "subdir"):
+            for i, j in ((di, wi), (wi, di)):
+                cases.append([["pair", layout, i, j], "cr", False, 0])
     return cases
 
 
